@@ -137,7 +137,7 @@ def apply(fnode, final_attrs=None, only=None):
     return new
 
 
-_PURE_METHODS = {'startswith', 'endswith', 'rstrip', 'lstrip', 'strip', 'lower', 'upper', 'count', 'find', 'isdigit', 'isalpha', 'isalnum', 'isspace'}
+_PURE_METHODS = {'get', 'startswith', 'endswith', 'rstrip', 'lstrip', 'strip', 'lower', 'upper', 'count', 'find', 'isdigit', 'isalpha', 'isalnum', 'isspace'}
 
 
 def _pure_test(e):
@@ -155,7 +155,7 @@ def _pure_test(e):
         return all(_pure_test(v) for v in e.elts)
     if isinstance(e, ast.Dict):
         return not e.keys
-    if isinstance(e, ast.Call) and isinstance(e.func, ast.Name) and e.func.id in ('len', 'isinstance', 'bool', 'hasattr', 'callable') and not e.keywords:
+    if isinstance(e, ast.Call) and isinstance(e.func, ast.Name) and e.func.id in ('len', 'isinstance', 'bool', 'hasattr', 'callable', 'getattr') and not e.keywords:
         return all(_pure_test(a) for a in e.args)
     if isinstance(e, ast.Call) and isinstance(e.func, ast.Attribute) and e.func.attr in _PURE_METHODS and not e.keywords:
         return _pure_test(e.func.value) and all(_pure_test(a) for a in e.args)
